@@ -55,7 +55,8 @@ theorem C29_results_nodup (ops : List Op) (q : Vec) (k : Nat) (raw : List Nat) :
     rw [List.Nodup, List.pairwise_map]; exact this
 
 /-- Results come in non-decreasing exact distance under the metric the index was declared
-with — in both regimes. -/
+with — whichever of cosine, l2 and inner product that is (`ix.metric` is arbitrary), whatever
+the sign of the distance — in both regimes. -/
 theorem C29_results_sorted (ops : List Op) (q : Vec) (k : Nat) (raw : List Nat) (ix : Index)
     (h : (run ops).idx = some ix) :
     (search (run ops) q k raw).Pairwise
@@ -64,7 +65,7 @@ theorem C29_results_sorted (ops : List Op) (q : Vec) (k : Nat) (raw : List Nat) 
   simp only [h]
   exact searchIx_sorted ix q k raw
 
-/-- Small index (linear-scan regime): exactly the `k` nearest.  The answer has
+/-- Small index (linear-scan regime), any declared metric: exactly the `k` nearest.  The answer has
 `min k (number of candidates)` rows, and every live labelled node with a vector of the index
 dimension that was *not* returned is at least as far as every returned one. -/
 theorem C29_exact_topk (ops : List Op) (q : Vec) (k : Nat) (raw : List Nat) (ix : Index)
@@ -96,6 +97,44 @@ theorem C29_model_refines_spec (ops : List Op) (q : Vec) (k : Nat) (raw : List N
   unfold search
   simp only [h]
   exact this
+
+/-- The three theorems above hold for every metric the code has: spelled out per variant,
+with the distance each one declares (cosine through the signed squared similarity, l2 through
+the squared distance, inner product through the negated dot product — 1 − q·v is negative as
+soon as q·v > 1, and must still sort before the positive ones). -/
+theorem C29_sorted_every_metric (ops : List Op) (q : Vec) (k : Nat) (raw : List Nat) (ix : Index)
+    (h : (run ops).idx = some ix) :
+    (ix.metric = .cosine → (search (run ops) q k raw).Pairwise
+        (fun a b => RLe (cosRank q a.vec) (cosRank q b.vec)))
+    ∧ (ix.metric = .l2 → (search (run ops) q k raw).Pairwise (fun a b => l2sq q a.vec ≤ l2sq q b.vec))
+    ∧ (ix.metric = .ip → (search (run ops) q k raw).Pairwise (fun a b => dot q b.vec ≤ dot q a.vec)) := by
+  have hs := C29_results_sorted ops q k raw ix h
+  refine ⟨?_, ?_, ?_⟩
+  · intro hm; rw [hm] at hs; exact hs
+  · intro hm; rw [hm] at hs
+    refine List.Pairwise.imp ?_ hs
+    intro a b hab
+    simpa [RLe, rank] using hab
+  · intro hm; rw [hm] at hs
+    refine List.Pairwise.imp ?_ hs
+    intro a b hab
+    simp only [RLe, rank] at hab
+    omega
+
+/-- inner-product index, exact regime: whoever is left out has a dot product with the query
+no larger than that of anyone returned (so the hits with q·v > 1 — negative distance — are
+the *first* rows, never evicted) -/
+theorem C29_exact_topk_inner_product (ops : List Op) (q : Vec) (k : Nat) (raw : List Nat) (ix : Index)
+    (h : (run ops).idx = some ix) (hm : ix.metric = .ip) (hq : q.length = ix.dim)
+    (hsz : ix.entries.length ≤ EXACT_MAX) :
+    ∀ x ∈ (run ops).nodes, x.inL = true → ∀ v, x.vec = some v → v.length = ix.dim →
+      x.id ∉ (search (run ops) q k raw).map (·.node) →
+      ∀ e ∈ search (run ops) q k raw, dot q v ≤ dot q e.vec := by
+  intro x hx hL v hv hd hnot e he
+  have := (C29_exact_topk ops q k raw ix h hq hsz).2 x hx hL v hv hd hnot e he
+  rw [hm] at this
+  simp only [RLe, rank] at this
+  omega
 
 /-- the ranking-free part of the specification follows from the whole -/
 theorem C29_spec_live_of_spec (nodes : List ONode) (dim : Nat) (m : Metric) (q : Vec) (k : Nat) (r : List Nat)
@@ -141,6 +180,10 @@ example : (search (run [.mkIndex 2 .cosine, .create true (some [1, 0]), .create 
 
 example : (search (run [.mkIndex 2 .l2, .create true (some [3, 0]), .create true (some [1, 1])])
     [1, 0] 5 []).map (·.node) = [1, 0] := by decide
+
+/-- inner product: distances of both signs and a zero vector; k smaller than the index -/
+example : (search (run [.mkIndex 2 .ip, .create true (some [1, 0]), .create true (some [3, 1]),
+    .create true (some [0, 0]), .create true (some [-2, 0])]) [1, 0] 3 []).map (·.node) = [1, 0, 2] := by decide
 
 /-- the hypotheses of `C29_exact_topk` are satisfiable by a state whose index saw an update
 and a delete -/
